@@ -31,7 +31,7 @@ DEFAULT_PROFILE = {
     "p_http": 0.9, "p_signature": 0.7, "p_routing": 0.25, "p_keyword_rpc": 0.08,
     "p_service_config": 0.8, "p_yaml": 0.3, "p_reserved_field": 0.08, "p_two_services": 0.25,
     "p_foreign_request": 0.1, "p_shuffle_numbers": 0.2, "p_additional_binding": 0.25,
-    "p_auto_populate": 0.0, "p_google_api_ns": 0.0, "sig_variants": False, "common_file_names": ["resources"],
+    "p_auto_populate": 0.0, "p_google_api_ns": 0.0, "sig_variants": False, "p_multi_var_path": 0.0, "common_file_names": ["resources"],
     "transports": ["grpc", "grpc+rest", "grpc+rest", "rest"],
     "p_numeric_enums": 0.3,
     "paged_variants": False,
@@ -414,6 +414,30 @@ def _gen_methods(cx, pkg, main, svc, noun, res, enums, msgs):
             if cx.chance("p_routing"):
                 m["routing"] = gen_routing(rng, res)
             svc["methods"].append(m)
+
+    if cx.chance("p_multi_var_path") and _unique_method(svc, f"Fetch{noun}"):
+        # two path variables: a templated one followed by a bare one that is a required field
+        idf = f"{low}_id"
+        fields = [{"name": "parent", "number": 1, "type": "string", "required": True, "child_ref": rtype},
+                  {"name": idf, "number": 2, "type": "string", "required": True}]
+        used = {"parent", idf}
+        nums = _number_seq(cx, 3, 3)
+        for i in range(rng.randint(0, 3)):
+            f = _rand_field(cx, used, nums[i], enums, [])
+            if f["type"] == "message" or f.get("map"):
+                continue
+            fields.append(f)
+        if rng.random() < 0.5:
+            fields.append({"name": _fresh_name(rng, used), "number": 11, "type": rng.choice(["int32", "bool", "string", "int64", "double"]),
+                           "required": True})
+        _msg(main, f"Fetch{noun}Request", fields)
+        m = {"name": f"Fetch{noun}", "input": f"{P}.Fetch{noun}Request", "output": P + "." + noun,
+             "http": {"verb": "get", "path": f"{pre}/{{parent={pwild}}}/{coll}/{{{idf}}}"}}
+        if rng.random() < 0.3:
+            m["http"]["path"] += ":fetch"
+        if cx.chance("p_signature"):
+            m["signatures"] = [f"parent,{idf}"]
+        svc["methods"].append(m)
 
     if cx.chance("p_sstream") and _unique_method(svc, f"Watch{noun}s"):
         _msg(main, f"Watch{noun}sRequest", [{"name": "parent", "number": 1, "type": "string"},
